@@ -55,6 +55,7 @@ def cases(tier):
                     else:
                         out.append({"grid": s, "setup": setup, "part": "programs", "first": [first] if first != "-" else [], "L": L})
                 out.append({"grid": s, "setup": setup, "part": "superposition"})
+                out.append({"grid": s, "setup": setup, "part": "resolve"})
     for s in U.grid_specs(tier):
         out.append({"grid": s, "part": "ghostrows"})
     return out
@@ -62,7 +63,7 @@ def cases(tier):
 
 def weight(case):
     n = int(np.prod([k + 2 for k in case["grid"]["shape"]]))
-    return n * {"programs": 150, "superposition": 60, "ghostrows": 1}[case["part"]]
+    return n * {"programs": 150, "superposition": 60, "ghostrows": 1, "resolve": 10}[case["part"]]
 
 
 def make_bc(g, setup):
@@ -281,6 +282,52 @@ def _superposition_part(g, case, res):
             break
 
 
+def _resolve_part(g, case, res):
+    """Repeated solves on one variable with boundary-condition edits in between, for the three
+    ways a variable comes into being (pre-calculated BC term, BCsTerm_precalc=False, result of
+    solveExplicitPDE): every solve must hand the solver the system assembled from the *current* BCs."""
+    F = res["findings"]
+    setup = case["setup"]
+    env = Env(g, setup)
+    seen = set()
+    for kind in ("precalc", "noprecalc", "explicit_result"):
+        if kind == "precalc":
+            phi = pf.CellVariable(g.mesh, U.generic_array(g.dims, tag=351, signed=True), make_bc(g, setup))
+        elif kind == "noprecalc":
+            phi = pf.CellVariable(g.mesh, U.generic_array(g.dims, tag=351, signed=True), make_bc(g, setup), BCsTerm_precalc=False)
+        else:
+            p0 = pf.CellVariable(g.mesh, U.generic_array(g.dims, tag=351, signed=True), make_bc(g, setup))
+            phi = pf.solveExplicitPDE(p0, 0.125, U.generic_array(g.fshape, tag=353, signed=True).ravel())
+        for rnd in range(3):
+            if rnd:
+                # edit the boundary data (and, in round 2, the coefficients) of every non-periodic side
+                for ax in range(g.d):
+                    for hi, side in enumerate(U.SIDES[ax]):
+                        bf = getattr(phi.BCs, side)
+                        if bf.periodic or not np.asarray(bf._c).size:
+                            continue
+                        bf.c = np.array(bf._c) * 1.5 + 0.25 * rnd
+                        if rnd == 2:
+                            bf.b = np.array(bf._b) + (4.0 if hi else -4.0)
+            terms = [env.term("base"), env.term("Md"), env.term("v"), pf.transientTerm(phi, 0.25, 1.0)]
+            Mbc, rbc = pf.boundaryConditionsTerm(phi.BCs)
+            Mref, rref = assemble(Mbc, rbc, terms)
+            spy = Spy()
+            pf.solvePDE(phi, terms, externalsolver=spy)
+            res["evals"] += 1
+            res["nontrivial"] += 1
+            Ms, rs = spy.calls[0]
+            if not (np.all(np.abs(Ms - Mref) <= 8 * EPS * (np.abs(Mref) + np.abs(Ms))) and
+                    np.all(np.abs(rs - rref) <= 8 * EPS * (np.abs(rref) + np.abs(rs)))):
+                k = "C04:resolve_system_differs:%s:round=%d" % (kind, rnd)
+                if k not in seen:
+                    seen.add(k)
+                    F.append({"key": k,
+                              "msg": "solve #%d on a %s variable on %s (%s BCs) after editing its boundary conditions: the system handed to the solver is not the one assembled from the current BCs and terms"
+                                     % (rnd + 1, kind, U.spec_id(g.spec), setup),
+                              "detail": {"grid": U.spec_id(g.spec), "kind": kind, "round": rnd, "setup": setup}})
+
+
 def _ghostrows_part(g, res):
     F = res["findings"]
     ghost = ~g.imask
@@ -318,6 +365,8 @@ def run_case(case):
         _programs_part(g, case, res)
     elif part == "superposition":
         _superposition_part(g, case, res)
+    elif part == "resolve":
+        _resolve_part(g, case, res)
     else:
         _ghostrows_part(g, res)
     res["outcomes"] = {"%s:%s" % (part, "ok" if not res["findings"] else "viol"): 1}
